@@ -258,3 +258,112 @@ def run(ctx):
     r1_stdout(ctx)
     r2_keywords(ctx)
     r3_coassign(ctx)
+    r4_one_counter(ctx)
+
+
+def r4_one_counter(ctx):
+    """necessary condition of 'nodes / time never decrease within one search': every info line of a search reads the
+    node count from one counter, and that counter is restarted by every go"""
+    rid = "C16.R4"
+    ctx.rule(rid, "every Info built by the search reports `nodes` from one and the same metrics counter, which reset_for_go restarts on every path; `time` always comes from the search's own clock", floor=3)
+    prog = ctx.prog
+    INFO = "inkayaku_uci::uci::Info"
+    sources = {}   # (fn, line) -> (nodes source, time source)
+
+    def info_fields(f, ex, rv):
+        names = rv["fields"]
+        return {n: ex.operand(a) for n, a in zip(names, rv["a"])}
+
+    def metric_path(t):
+        """('last'|'total'|...) for a tree that calls a Metrics method on self.state.metrics.<x>"""
+        for x in leaves(t):
+            if x[0] == "f" and x[1][0] == "f" and x[1][2] == "metrics":
+                return x[2]
+        return None
+    gi = prog.fns.get(SEARCH + "generate_info")
+    gi_fields = {}
+    if gi is not None:
+        gex = Exprs(gi)
+        for b in gi["blocks"]:
+            for s in b["stmts"]:
+                if s["rv"]["op"] == "agg" and s["rv"].get("adt") == INFO:
+                    gi_fields = info_fields(gi, gex, s["rv"])
+    for k, f in prog.fns.items():
+        if f.get("test") or f["kind"] == "promoted" or f["crate"] != "inkayaku_engine_core" or k == SEARCH + "generate_info":
+            continue
+        ex = None
+        for b in f["blocks"]:
+            if b["cleanup"]:
+                continue
+            for s in b["stmts"]:
+                rv = s["rv"]
+                if rv["op"] == "agg" and rv.get("adt") == INFO:
+                    ex = ex or Exprs(f)
+                    flds = info_fields(f, ex, rv)
+                    res = {}
+                    for name in ("nodes", "time"):
+                        t = flds.get(name)
+                        if t is None:
+                            continue
+                        # functional update `..self.generate_info()`: the field is moved out of the call's result
+                        if t[0] == "f" and t[1][0] == "call" and t[1][1] == SEARCH + "generate_info":
+                            t = gi_fields.get(name, t)
+                        if t[0] == "f" and t[1][0] == "c":
+                            res[name] = "EMPTY"     # taken from Info::EMPTY: not reported
+                            continue
+                        if t[0] == "c":
+                            res[name] = "EMPTY" if "None" in str(t[1]) else "const"
+                            continue
+                        if name == "nodes":
+                            res[name] = "metrics." + str(metric_path(t))
+                        else:
+                            calls = [x[1].rsplit("::", 1)[-1] for x in leaves(t) if x[0] == "call"]
+                            res[name] = "elapsed" if "elapsed" in calls else ("local" if t[0] in ("local",) or any(x[0] == "local" for x in leaves(t)) else show(t)[:60])
+                            if res[name] == "local":
+                                # a local bound to self.state.elapsed() earlier in the function
+                                for x in leaves(t):
+                                    if x[0] == "local":
+                                        init = ex.initial(x[1])
+                                        if init[0] == "call" and init[1].endswith("::elapsed"):
+                                            res[name] = "elapsed"
+                    sources[(k, s["line"])] = res
+    if len(sources) < 2:
+        ctx.lost(rid, "Info constructions in the search (found %d)" % len(sources))
+        return
+    node_src = {v["nodes"] for v in sources.values() if v.get("nodes") not in (None, "EMPTY")}
+    ok = len(node_src) == 1
+    ctx.ob(rid, "nodes-from-one-counter", ok,
+           "" if ok else "info lines of one search report `nodes` from different counters %s: %s - a line fed from a counter that is not restarted per go reports more nodes than the next line (nodes decrease within a search)"
+           % (sorted(node_src), {("%s:%d" % (k.rsplit("::", 1)[-1], l)): v.get("nodes") for (k, l), v in sources.items()}), "",
+           sample={"sources": {("%s:%d" % (k.rsplit("::", 1)[-1], l)): v for (k, l), v in sources.items()}})
+    time_src = {v["time"] for v in sources.values() if v.get("time") not in (None, "EMPTY")}
+    ok = time_src <= {"elapsed"} and bool(time_src)
+    ctx.ob(rid, "time-from-search-clock", ok, "" if ok else "info lines report `time` from %s (expected SearchState::elapsed of the running search)" % sorted(time_src), "")
+    # the counter is restarted by every go
+    rg = prog.fns.get(SEARCH + "reset_for_go")
+    if rg is None or not node_src:
+        ctx.lost(rid, "Search::reset_for_go")
+        return
+    which = sorted(node_src)[0].split(".", 1)[-1]
+    from ..paths import returning_paths, NotLoopFree
+    try:
+        pes = returning_paths(rg)
+    except NotLoopFree:
+        ctx.lost(rid, "reset_for_go has a loop")
+        return
+    bad = 0
+    for pe in pes:
+        hit = False
+        for place, val, b in pe.writes:
+            names = []
+            t = place
+            while t[0] == "f":
+                names.append(t[2])
+                t = t[1]
+            names = names[::-1]
+            if "metrics" in names and (names[-1] == which or names[-1] == "metrics"):
+                hit = True
+        if not hit:
+            bad += 1
+    ctx.ob(rid, "counter-restarted-per-go", bad == 0, "" if bad == 0 else "reset_for_go has %d path(s) that leave metrics.%s (the counter behind `nodes`) running from the previous search" % (bad, which), ctx.where(rg),
+           sample={"counter": "metrics." + which, "paths": len(pes)})
